@@ -50,15 +50,30 @@ func (eng *Engine) exec(fn *ssa.Function, in ssa.Instruction, env *Env) []*Env {
 	case *ssa.Index:
 		// an element of a local table of functions ([...]func{f, g, h} ranged over): one of its entries
 		if fns := funcTableOf(t.X); len(fns) > 0 {
+			binds := funcTableBindings(t.X)
 			// a constant index selects exactly one slot
 			if iv := eng.val(env, t.Index); iv.K == KNum && len(iv.Set) == 1 {
 				if n, err := strconv.Atoi(iv.Set[0]); err == nil && n >= 0 && n < len(fns) {
-					env.vals[t] = AV{K: KFunc, Nil: nonNil, Fn: fns[n]}
+					a := AV{K: KFunc, Nil: nonNil, Fn: fns[n]}
+					if n < len(binds) && binds[n] != nil {
+						for _, b := range binds[n].Bindings {
+							a.Bind = append(a.Bind, eng.val(env, b))
+						}
+					}
+					env.vals[t] = a
 					return []*Env{env}
 				}
 			}
-			env.vals[t] = AV{K: KFunc, Nil: nonNil, Fns: fns}
-			return []*Env{env}
+			anyBound := false
+			for _, b := range binds {
+				if b != nil && len(b.Bindings) > 0 {
+					anyBound = true
+				}
+			}
+			if !anyBound {
+				env.vals[t] = AV{K: KFunc, Nil: nonNil, Fns: fns}
+				return []*Env{env}
+			}
 		}
 		env.vals[t] = eng.fromCF(env, defaultCF(t.Type(), 0), t.Type(), eng.instrKey(in))
 		return []*Env{env}
@@ -998,9 +1013,6 @@ func funcTableOf(v ssa.Value) []*ssa.Function {
 				case *ssa.Function:
 					out[i] = f
 				case *ssa.MakeClosure:
-					if len(f.Bindings) != 0 {
-						return nil
-					}
 					out[i] = f.Fn.(*ssa.Function)
 				default:
 					return nil
@@ -1014,6 +1026,43 @@ func funcTableOf(v ssa.Value) []*ssa.Function {
 	for _, f := range out {
 		if f == nil {
 			return nil
+		}
+	}
+	return out
+}
+
+// funcTableBindings: per slot of a function table (see funcTableOf) the closure that fills it, nil for a
+// plain function.
+func funcTableBindings(v ssa.Value) []*ssa.MakeClosure {
+	ld, ok := v.(*ssa.UnOp)
+	if !ok {
+		return nil
+	}
+	al, ok := ld.X.(*ssa.Alloc)
+	if !ok {
+		return nil
+	}
+	at, ok := al.Type().Underlying().(*types.Pointer).Elem().Underlying().(*types.Array)
+	if !ok {
+		return nil
+	}
+	out := make([]*ssa.MakeClosure, int(at.Len()))
+	for _, r := range *al.Referrers() {
+		ia, ok := r.(*ssa.IndexAddr)
+		if !ok {
+			continue
+		}
+		c, isC := ia.Index.(*ssa.Const)
+		if !isC {
+			continue
+		}
+		i := int(c.Int64())
+		for _, rr := range *ia.Referrers() {
+			if st, ok := rr.(*ssa.Store); ok && st.Addr == ssa.Value(ia) && i >= 0 && i < len(out) {
+				if mc, ok := st.Val.(*ssa.MakeClosure); ok {
+					out[i] = mc
+				}
+			}
 		}
 	}
 	return out
